@@ -16,6 +16,8 @@ func TestMain(m *testing.M) {
 		"programs of 12 items drawn from: list/map literals (typing by element kinds), a <- v / a <- v1, v2 / a <- s... (identifiers and selectors), for-in over lists, string lists, maps and ranges with optional index/key and if filter (<- and in), list/map/select/exists comprehensions with 1-3 for-phrases and per-phrase filters, command-style calls; element and filter expressions contain traced calls. Each item is rendered as XGo and as the explicit Go loops/calls of doc/docs.md (last for-phrase outermost); oracle: equal printed values and evaluation trace per item. Non-trivial = item has a filter, >= 2 phrases or a traced side effect; distinct = item text")
 }
 
+var oracle = sugarcheck.NewOracle("pair", nil)
+
 func TestCollections(t *testing.T) {
 	vk.R.Assume("Go toolchain output of the hand-expanded loops is the documented meaning")
 	sugarcheck.Run(t, vk.R, sugarcheck.Options{
